@@ -644,18 +644,15 @@ Qed.
 
 (* rotations are guarded: the target holds no identity records yet *)
 Definition rot_guard (s : state) (o : op) : Prop :=
-  match o with ORotate _ b _ => idx_of s b = [] | _ => True end.
+  match o with ORotate _ b _ => idx_of s b = [] | ORotateRR a b _ => idx_of s b = [] /\ a <> b | _ => True end.
 
-Lemma rotate_W a b ok s s' : W s -> del_fix s = true -> idx_of s b = [] -> rotate_msg a b ok s = Ok s' ->
+Lemma rotate_core_W a b ok s a0 s' : W s -> del_fix s = true -> idx_of s b = [] -> a <> b ->
+  recs a0 = recs s -> idx a0 = idx s -> reqs a0 = reqs s -> last_rid a0 = last_rid s -> del_fix a0 = del_fix s ->
+  rotate_core a b a0 = Ok s' ->
   W s' /\ owner_frame s (ORotate a b ok) s' /\ vals_kept s s'.
 Proof.
-  intros Ws Fx Gb H. unfold rotate_msg in H.
-  destruct (negb (mem a (secrets s))); [discriminate|]. destruct (negb ok); [discriminate|].
-  destruct (mem b (rotated s)); [discriminate|]. destruct (negb (mem a (accts s))) eqn:Ma; [discriminate|].
-  destruct (mem b (accts s)) eqn:Mb; [discriminate|].
-  assert (Nab : a <> b). { intros ->. apply negb_false_iff in Ma. congruence. }
-  bind_inv H. destruct (negb (all_recs_exist a0 (idx_of a0 a))); [discriminate|]. bind_inv Hb. inv Hb0.
-  destruct (move_bal_frame _ _ _ _ Ha) as (E1 & E2 & E3 & E4 & E5).
+  intros Ws Fx Gb Nab E1 E2 E3 E4 E5 H. unfold rotate_core in H.
+  destruct (negb (all_recs_exist a0 (idx_of a0 a))); [discriminate|]. bind_inv H. rename Ha into Ha0. inv Hb.
   assert (W1 : W a0) by (eapply (W_ext s); eauto).
   pose proof (W_ni _ W1) as Nn.
   destruct (move_fold a b Nab (idx_of a0 a) a0 a1) as (W2 & Q2 & L2 & R1 & R2 & I2); auto.
@@ -684,6 +681,25 @@ Proof.
       destruct (in_dec (fun x y : (addr * string) * Z => ltac:(repeat decide equality)) (entry_of r) (idx_of a0 a)) as [Y|N].
       * exists (with_owner r b). split; [apply J1; auto|auto].
       * exists r. split; [apply J2; auto|auto].
+Qed.
+
+Lemma rotate_W a b ok s s' : W s -> del_fix s = true -> idx_of s b = [] -> rotate_msg a b ok s = Ok s' ->
+  W s' /\ owner_frame s (ORotate a b ok) s' /\ vals_kept s s'.
+Proof.
+  intros Ws Fx Gb H. unfold rotate_msg in H. destruct (mem a (rrtok s)); [discriminate|].
+  destruct (negb (mem a (secrets s))); [discriminate|]. destruct (negb ok); [discriminate|].
+  destruct (mem b (rotated s)); [discriminate|]. destruct (negb (mem a (accts s))) eqn:Ma; [discriminate|].
+  destruct (mem b (accts s)) eqn:Mb; [discriminate|].
+  assert (Nab : a <> b). { intros ->. apply negb_false_iff in Ma. congruence. }
+  bind_inv H. destruct (move_bal_frame _ _ _ _ Ha) as (E1 & E2 & E3 & E4 & E5).
+  eapply rotate_core_W; eauto.
+Qed.
+Lemma rotate_rr_W a b ok s s' : W s -> del_fix s = true -> idx_of s b = [] -> a <> b -> rotate_rr a b ok s = Ok s' ->
+  W s' /\ owner_frame s (ORotateRR a b ok) s' /\ vals_kept s s'.
+Proof.
+  intros Ws Fx Gb Nab H. unfold rotate_rr in H. destruct (negb (mem a (rrtok s))); [discriminate|].
+  destruct (negb ok); [discriminate|]. destruct (mem b (rotated s)); [discriminate|].
+  apply (rotate_core_W a b ok s s s'); auto.
 Qed.
 
 (* ---------------------------------------------------------------- all operations *)
@@ -727,7 +743,7 @@ Proof.
       destruct (register_keeper_W _ _ _ _ _ W1 H) as (A & B & C). split; auto. split; [exact B|]. split; [exact C|intros X; discriminate X].
     - unfold claim_validator in H. destruct (negb (mem a (perm_v s))); [discriminate|].
       destruct (register_keeper_W _ _ _ _ _ Ws H) as (A & B & C). split; auto. split; [exact B|]. split; [exact C|intros X; discriminate X].
-    - unfold set_keys_prop in H. destruct (negb _); [discriminate|]. destruct (negb _); [discriminate|].
+    - unfold set_keys_prop in H. destruct (String.eqb new (ukeys s)); [discriminate|]. destruct (negb _); [discriminate|]. destruct (negb _); [discriminate|].
       destruct (ukeys_valid new); [|discriminate]. inv H. split; [eapply (W_ext s); eauto|]. split; [reflexivity|].
       split; [apply vals_kept_no_cover; apply vals_kept_refl; auto|intros X; discriminate X].
     - unfold set_keys_msg in H. destruct (negb _); [discriminate|]. destruct (msg_guard s && _); [discriminate|].
@@ -735,7 +751,10 @@ Proof.
       destruct (ukeys_valid new); [|discriminate]. inv H. split; [eapply (W_ext s); eauto|]. split; [reflexivity|].
       split; [apply vals_kept_no_cover; apply vals_kept_refl; auto|intros X; discriminate X].
     - destruct (rotate_W _ _ _ _ _ Ws Fx G H) as (A & B & C). split; auto. split; [exact B|].
-      split; [apply vals_kept_no_cover; auto|auto]. }
+      split; [apply vals_kept_no_cover; auto|auto].
+    - destruct G as [G1 G2]. destruct (rotate_rr_W _ _ _ _ _ Ws Fx G1 G2 H) as (A & B & C). split; auto. split; [exact B|].
+      split; [apply vals_kept_no_cover; auto|auto].
+    - inv H. split; auto. split; [reflexivity|]. split; [apply vals_kept_no_cover; apply vals_kept_refl; auto|intros X; discriminate X]. }
   destruct Core as (A & B & C & D). split; auto. split; auto.
   intros r Hr Ch. split; [apply (C r Hr Ch)|].
   intros r' Hr' Ei. destruct (approving o) eqn:Ap.
@@ -758,7 +777,7 @@ Proof.
   - rewrite (step_del_fix _ _ _ E). auto.
 Qed.
 
-Lemma W_init uk mt pc pv pn ac se b fx mg : W (init_state uk mt pc pv pn ac se b fx mg).
+Lemma W_init uk mt pc pv pn ac se b fx mg rr : W (init_state uk mt pc pv pn ac se b fx mg rr).
 Proof. constructor; simpl; try constructor; try tauto; try lia. Qed.
 
 (* only an address itself creates, changes or deletes its records; a rotation moves them unchanged *)
@@ -826,7 +845,7 @@ Proof.
     { eapply step_psteps; [|exact H]. destruct o; simpl; auto; contradiction. }
     clear H Hn M. induction Q; auto. rewrite IHQ. eapply pstep_ukeys; eauto. }
   destruct o; try (rewrite Keep; auto; fail); simpl in H.
-  - unfold set_keys_prop in H. destruct (negb _); [discriminate|]. destruct (negb _); [discriminate|].
+  - unfold set_keys_prop in H. destruct (String.eqb new (ukeys s)); [discriminate|]. destruct (negb _); [discriminate|]. destruct (negb _); [discriminate|].
     destruct (ukeys_valid new) eqn:V; [|discriminate]. inv H. simpl. auto.
   - unfold set_keys_msg in H. destruct (negb _); [discriminate|]. destruct (msg_guard s && _); [discriminate|].
     destruct (msg_guard s && _); [discriminate|].
@@ -908,4 +927,63 @@ Proof.
   intros K L G. unfold unique_ok. rewrite (KU_no_conflicts watch (run s ops)); auto.
   - apply run_KU; auto.
   - apply run_LU; auto.
+Qed.
+
+(* ================================================================ the escrow always covers every pending tip *)
+Definition TN (s : state) : Prop := forall q, In q (reqs s) -> 0 <= q_amt q.
+Lemma pstep_TN allowed kg mv s s' : pstep allowed kg mv s s' -> TN s -> TN s'.
+Proof.
+  unfold TN. intros H T. destruct H; try exact T.
+  - apply set_record_frame in H1. destruct H1 as (E & _). rewrite E. auto.
+  - apply set_record_frame in H1. destruct H1 as (E & _). rewrite E. auto.
+  - apply set_record_frame in H0. destruct H0 as (E & _). rewrite E. auto.
+  - apply pay_opt_ok in H1. simpl in H1. destruct H1 as (_ & _ & E & _). rewrite E. intros x Ix.
+    apply in_app_or in Ix. destruct Ix as [Ix|[<-|[]]]; auto.
+  - apply payout_frame in H0. destruct H0 as (_ & _ & _ & E). rewrite E. intros x Ix. apply filter_In in Ix. apply T; tauto.
+  - apply pay_opt_ok in H. destruct H as (_ & _ & E & _). rewrite E. auto.
+  - simpl. intros x Ix. apply in_map_iff in Ix. destruct Ix as (y & <- & Iy). simpl. auto.
+Qed.
+Lemma run_TN ops : forall s, TN s -> TN (run s ops).
+Proof.
+  induction ops as [|o r IH]; simpl; intros s T; auto. apply IH. unfold step_tx. destruct (step s o) eqn:E; auto.
+  eapply psteps_inv; [intros; eapply pstep_TN; eauto| |exact T].
+  eapply (step_psteps kgT); [|exact E]. destruct o; simpl; unfold kgT; auto.
+Qed.
+Lemma tips_ge l d q : (forall x, In x l -> 0 <= q_amt x) -> In q l -> q_denom q = d -> q_amt q <= tips_of l d.
+Proof.
+  unfold tips_of. induction l as [|x t IH]; simpl; intros N Iq Ed; [destruct Iq|].
+  assert (Nt : 0 <= zsum (map q_amt (filter (fun q0 => String.eqb (q_denom q0) d) t))).
+  { clear - N. induction t as [|y t IH]; simpl; [lia|]. destruct (String.eqb (q_denom y) d); simpl.
+    - assert (0 <= q_amt y) by (apply N; right; left; auto). assert (0 <= zsum (map q_amt (filter (fun q0 => String.eqb (q_denom q0) d) t))).
+      { apply IH. intros z [Hz|Hz]; apply N; [left|right; right]; auto. } unfold zsum in *. simpl. lia.
+    - apply IH. intros z [Hz|Hz]; apply N; [left|right; right]; auto. }
+  destruct Iq as [->|Iq].
+  - rewrite Ed, String.eqb_refl. simpl. unfold zsum in *. simpl. lia.
+  - assert (0 <= q_amt x) by (apply N; left; auto). specialize (IH (fun z Hz => N z (or_intror Hz)) Iq Ed).
+    destruct (String.eqb (q_denom x) d); simpl; unfold zsum in *; simpl; lia.
+Qed.
+(* handling or cancelling a pending request can never fail for lack of escrowed funds *)
+Theorem escrow_always_sufficient base ops s :
+  QE base s -> TN s -> (forall d, 0 <= base d) ->
+  forall q to, In q (reqs (run s ops)) -> is_ok (payout (run s ops) q to) = true.
+Proof.
+  intros Q T B q to Iq. pose proof (run_QE base ops s Q) as (_ & _ & Eb). pose proof (run_TN ops s T) as Tn.
+  unfold payout, pay_opt. destruct (q_amt q =? 0); [reflexivity|]. unfold pay.
+  pose proof (tips_ge _ _ q Tn Iq eq_refl) as G. specialize (Eb (q_denom q)). specialize (B (q_denom q)).
+  destruct (bal (run s ops) Gov (q_denom q) <? q_amt q) eqn:F; [lia|reflexivity].
+Qed.
+
+(* ================================================================ why the rotation guard is needed *)
+(* a rotation into an address that already holds a record with the same key overwrites that address'
+   index entry: its old record stays in the store but is no longer indexed *)
+Definition sg : state := init_state "moniker,username" 0 [] [] [] [0; 1; 2; 3] [0; 1; 2; 3] (fun x d => match x with User _ => 5000 | Gov => 0 end) true true [].
+Definition w_guard : list op := [ORegister 100 4 [("twitter", "x")]; ORegister 100 0 [("twitter", "y")]; ORotate 0 4 true]%string.
+Lemma rot_guard_needed : W sg /\ del_fix sg = true /\ ~ rot_guarded sg w_guard /\ ~ W (run sg w_guard).
+Proof.
+  split; [apply W_init|]. split; [reflexivity|]. split.
+  - cbn [rot_guarded rot_guard w_guard]. intros (_ & _ & G & _). vm_compute in G. discriminate.
+  - intros Wt. pose proof (W_ci _ Wt (mkRec 1 4 "twitter" "x" 100 [])%string) as C.
+    assert (E1 : recs (run sg w_guard) = [mkRec 1 4 "twitter" "x" 100 []; mkRec 2 4 "twitter" "y" 100 []]%string) by (vm_compute; reflexivity).
+    assert (E2 : idx (run sg w_guard) = [((4, "twitter"), 2)]%string) by (vm_compute; reflexivity).
+    rewrite E1, E2 in C. destruct C as [C|[]]; [left; reflexivity|]. unfold entry_of in C. simpl in C. inv C.
 Qed.
